@@ -74,6 +74,9 @@ def instr(draw, depth):
     if depth < 3:
         nattr = draw(st.integers(0, 2))
         kids = [draw(attr_instr()) for _ in range(nattr)]
+        if draw(st.integers(0, 4)) == 0:
+            # the attribute NODES of a source element, copied on their own (their namespace nodes do not come along)
+            kids.insert(draw(st.integers(0, len(kids))), {'k': 'copyattrs', 'sel': draw(st.integers(1, 4)), 'via': draw(st.sampled_from(['copy-of', 'copy']))})
         for _ in range(draw(st.integers(0, 2))):
             kids.append(draw(instr(depth + 1)))
     if k <= 4:
@@ -177,6 +180,10 @@ def instr_text(n):
         return attr_text(n)
     if k == 'copyof':
         return '<xsl:copy-of select="/*/*[%d]"/>' % n['sel']
+    if k == 'copyattrs':
+        if n['via'] == 'copy':
+            return '<xsl:for-each select="/*/*[%d]/@*"><xsl:copy/></xsl:for-each>' % n['sel']
+        return '<xsl:copy-of select="/*/*[%d]/@*"/>' % n['sel']
     kids = ''.join(instr_text(c) for c in n.get('c', []))
     if k == 'copy':
         return '<xsl:for-each select="/*/*[%d]"><xsl:copy>%s</xsl:copy></xsl:for-each>' % (n['sel'], kids)
@@ -278,6 +285,18 @@ def expected(case):
                 raise Invalid('attribute outside element')
             cur_attrs[attr_name(n, scope)] = n['v']
             return []
+        if k == 'copyattrs':
+            if cur_attrs is None:
+                raise Invalid('attribute outside element')
+            s = srcs[n['sel'] - 1] if n['sel'] - 1 < len(srcs) else None
+            for a in (s.attributes if s is not None and s.kind == 'element' else []):
+                cur_attrs[(a.uri, a.local)] = a.value
+                if a.uri and a.uri != XML_NS:
+                    stats['namespaces'].add(a.uri)
+                    stats['copied_ns_attr'] = True
+                    if scope.get(a.prefix) not in (None, a.uri):
+                        stats['collision'] = True
+            return []
         if k == 'copyof':
             s = srcs[n['sel'] - 1] if n['sel'] - 1 < len(srcs) else None
             if s is not None and s.kind == 'element':
@@ -356,7 +375,7 @@ def expected(case):
         out = []
         seen_child = False
         for c in children:
-            if c['k'] == 'attr':
+            if c['k'] in ('attr', 'copyattrs'):
                 if seen_child:
                     raise Invalid('attribute after child')
                 run(c, scope, attrs)
@@ -455,4 +474,36 @@ def signature(case, detail):
         extra = re.split(r'[:.(]', detail.get('err', ''))[0][:60]
     if detail.get('xmlprefix'):
         extra = 'xml-prefix'
-    return '%s|%s' % (detail['what'], extra)
+    return '%s|%s|%s' % (detail['what'], extra, ','.join(triggers(case)))
+
+
+def triggers(case):
+    """which constructions that open findings are about does the case contain (so that a finding can only ever cover cases that contain its trigger)"""
+    t = set()
+    base = dict(ROOT_NS)
+    if case['default_ns']:
+        base[''] = case['default_ns']
+    alias_from = base.get(case['alias'][0]) if case['alias'] else None
+    alias_pfx = case['alias'][0] if case['alias'] else None
+    excluded = {base.get('' if p == '#default' else p) for p in case['excl']}
+
+    def walk(n):
+        if n['k'] == 'attr' and n.get('ns') is not None:
+            t.add('nsattr')
+        if n['k'] == 'attr' and n['name'].startswith('xml:') and n.get('avt'):
+            t.add('xmlattr')
+        if n['k'] == 'lre':
+            for p, u in n['decl']:
+                if alias_from and (u == alias_from or p == alias_pfx):
+                    t.add('alias-rebound')
+                if u in excluded:
+                    t.add('excluded-redeclared')
+        if n['k'] in ('attr', 'elem') and alias_pfx and n['name'].startswith(alias_pfx + ':'):
+            t.add('alias-rebound')
+        for c in n.get('c', []):
+            walk(c)
+    walk(case['top'])
+    for lst in case['sets'].values():
+        for a in lst:
+            walk(a)
+    return sorted(t)
